@@ -519,7 +519,8 @@ func lastCalls(m *Machine) []string { return append([]string(nil), m.lastCalls..
 // ---- random histories with random fault placement -----------------------------------------------
 
 var profC18 = profile{
-	must: []string{"auth"}, may: []string{"confirm", "lock", "logout", "oauth2", "otp", "recover", "register", "remember"},
+	arbVariants: true,
+	must:        []string{"auth"}, may: []string{"confirm", "lock", "logout", "oauth2", "otp", "recover", "register", "remember"},
 	setups: []string{"totp", "sms", "recovery", "expire"}, kinds: append(append([]wk{}, worldKinds...), wk{"snip:rec2fa", 4}, wk{"snip:mangle", 2}, wk{"snip:reclocked", 4}), minOps: 14, maxOps: 34,
 	accts: [2]int{2, 3}, browsers: [2]int{1, 2}, middlewares: []string{"", "remember", "remember", "expire"},
 	tweak:      func(t *rapid.T, c *harness.Config) { c.LockAfter = rapid.IntRange(3, 6).Draw(t, "lockafter18") },
